@@ -105,12 +105,22 @@ def parseFont (r : String) : Option Font := do
         let (a, b) ← kv x '='
         pure ((← a.toNat?), (← int? b))
       pure (some (fun (g : Nat) => match rs.find? fun q => q.1 == g with | some q => q.2 | none => d))
+  let sb ← get 's'
+  let vsbs ← if sb == "-" then some [] else (splitOn1 sb '.').mapM int?
+  let b ← get 'b'
+  let glyf ← if b == "-" then some none else do
+    let recs ← ((splitOn1 b '/').drop 1).mapM fun x => do
+      let (g, yy) ← kv x '='
+      let (lo, hi) ← kv yy '.'
+      pure ((← g.toNat?), ((← int? lo), (← int? hi)))
+    pure (some (fun (g : Nat) => (recs.find? fun q => q.1 == g).map (·.2)))
   let c ← get 'c'
   let subs ← if c == "-" then some [] else (splitOn1 c '/').mapM parseSub
   pure { subs := subs, upem := upem,
          hmtx := hm.map fun a => metricsFn a ng,
          vmtx := vm.map fun a => metricsFn a ng,
-         ascender := asc, descender := desc, vorg := vorg }
+         ascender := asc, descender := desc, vorg := vorg, glyf := glyf,
+         vsb := fun g => (vsbs[g]?).getD 0 }
 
 def parseDir : String → Option Dir
   | "l" => some .ltr | "r" => some .rtl | "t" => some .ttb | "b" => some .btt | _ => none
